@@ -1,6 +1,6 @@
 SPECIFICATION Spec
 CONSTANTS
-  MTUs = {49, 256}
+  MTUs = {49, 283}
   KeyLens = {1, 4, 22, 23, 24, 40}
   Rems = {0, 1, 2, 3, 4, 5, 6, 7, 8, 9, 10, 11, 12, 13, 14, 15, 16, 17, 18, 19, 20, 21, 22, 23, 24, 25, 26, 27, 28, 29, 30, 31, 32, 33, 34, 35, 36, 37, 38, 39, 40}
   MaxMsgs = 2
